@@ -28,12 +28,15 @@ CONSTANTS Solvers,        \* subset of AllSolvers
           MaxIter,        \* maxiter ranges over 0..MaxIter
           MaxPar,         \* M, L, s range over 1..MaxPar
           Consistent,     \* TRUE: the recomputed residual of GMRES agrees with the estimate
-          WithBreakdown   \* TRUE: the environment may fail a `precondition` (exception)
+          WithBreakdown,  \* TRUE: the environment may fail a `precondition` (exception)
+          CheckAfterGuarded \* BiCGStab check_after: TRUE = as repaired by proposed_fixes/C01-bicgstab-check-after
+                            \* (res = norm(r); one forced iteration unless res = 0), FALSE = the pinned tree
+                            \* (res = 2 eps, a number that is not the residual of anything)
 
-VARIABLES cfg, pc, iter, j, nrest, first, conv, est, zero, broke,
+VARIABLES cfg, pc, iter, j, nrest, first, force, conv, est, zero, broke,
           clock, xVer, effVer, resVer, nP, hist, lastAct
 
-vars  == <<cfg, pc, iter, j, nrest, first, conv, est, zero, broke, clock, xVer, effVer, resVer, nP, hist, lastAct>>
+vars  == <<cfg, pc, iter, j, nrest, first, force, conv, est, zero, broke, clock, xVer, effVer, resVer, nP, hist, lastAct>>
 
 IsS(s)   == cfg.solver = s
 Left     == cfg.side = "left"
@@ -48,7 +51,7 @@ Configs == { c \in [solver : Solvers, side : {"left", "right"}, par : 1..MaxPar,
                /\ (c.opt => c.solver \in {"bicgstab", "bicgstabl", "idrs"}) }
 
 Init == /\ cfg \in Configs
-        /\ pc = "Start" /\ iter = 0 /\ j = 0 /\ nrest = 0 /\ first = TRUE
+        /\ pc = "Start" /\ iter = 0 /\ j = 0 /\ nrest = 0 /\ first = TRUE /\ force = FALSE
         /\ conv = FALSE /\ est = FALSE /\ zero = FALSE /\ broke = FALSE
         /\ clock = 0 /\ xVer = 0 /\ effVer = 0 /\ resVer = -1 /\ nP = 0
         /\ hist = <<>> /\ lastAct = "init"
@@ -62,7 +65,7 @@ NewConv(c)  == conv' = c /\ hist' = Append(hist, IF c THEN "c" ELSE "n")
 StepX       == clock' = clock + 1 /\ xVer' = clock + 1 /\ resVer' = clock + 1
 Throw(name) == /\ WithBreakdown /\ broke' = TRUE /\ pc' = "Return" /\ lastAct' = name
                /\ hist' = Append(hist, "B")
-               /\ Keep(<<cfg, iter, j, nrest, first, conv, est, zero, clock, xVer, effVer, resVer, nP>>)
+               /\ Keep(<<cfg, iter, j, nrest, first, force, conv, est, zero, clock, xVer, effVer, resVer, nP>>)
 
 \* ------------------------------------------------- prologue (all solvers)
 \* norm_rhs < eps(1) and not ns_search: clear(x); return (0, norm_rhs)
@@ -70,9 +73,9 @@ Throw(name) == /\ WithBreakdown /\ broke' = TRUE /\ pc' = "Return" /\ lastAct' =
 ZeroRhs == /\ Act("zero_rhs", "Start", "Return")
            /\ zero' = TRUE /\ StepX /\ effVer' = clock + 1
            /\ hist' = Append(hist, "Z")
-           /\ Keep(<<cfg, iter, j, nrest, first, conv, est, broke, nP>>)
+           /\ Keep(<<cfg, iter, j, nrest, first, force, conv, est, broke, nP>>)
 NonZeroRhs == /\ Act("start", "Start", IF cfg.solver \in {"gmres", "fgmres", "lgmres"} THEN "Outer" ELSE "Init0")
-              /\ Keep(<<cfg, iter, j, nrest, first, conv, est, zero, broke, clock, xVer, effVer, resVer, nP, hist>>)
+              /\ Keep(<<cfg, iter, j, nrest, first, force, conv, est, zero, broke, clock, xVer, effVer, resVer, nP, hist>>)
 
 \* ---------------------------------------------------- CG and Richardson
 \* residual(rhs, A, x, r); res_norm = norm(r);
@@ -81,37 +84,42 @@ NonZeroRhs == /\ Act("start", "Start", IF cfg.solver \in {"gmres", "fgmres", "lg
 LinSolver == IsS("cg") \/ IsS("richardson")
 LinInit == /\ LinSolver /\ Act("lin.residual", "Init0", "Head")
            /\ resVer' = xVer /\ \E c \in BOOLEAN : NewConv(c)
-           /\ Keep(<<cfg, iter, j, nrest, first, est, zero, broke, clock, xVer, effVer, nP>>)
+           /\ Keep(<<cfg, iter, j, nrest, first, force, est, zero, broke, clock, xVer, effVer, nP>>)
 LinHead == /\ LinSolver /\ Act("lin.test", "Head", IF iter < cfg.maxit /\ ~conv THEN "Body" ELSE "Return")
-           /\ Keep(<<cfg, iter, j, nrest, first, conv, est, zero, broke, clock, xVer, effVer, resVer, nP, hist>>)
+           /\ Keep(<<cfg, iter, j, nrest, first, force, conv, est, zero, broke, clock, xVer, effVer, resVer, nP, hist>>)
 LinBody == /\ LinSolver /\ Act("lin.iterate", "Body", "Head")
            /\ nP' = nP + 1 /\ StepX /\ iter' = iter + 1 /\ \E c \in BOOLEAN : NewConv(c)
-           /\ Keep(<<cfg, j, nrest, first, est, zero, broke, effVer>>)
+           /\ Keep(<<cfg, j, nrest, first, force, est, zero, broke, effVer>>)
 
 \* ----------------------------------------------------------------- BiCGStab
 \* r = [P](rhs - A x); res = check_after ? 2 eps : norm(r);
-\* for(first = true; res > eps && iter < maxiter; ++iter) {
+\* for(first = true; res > eps && iter < maxiter; ++iter) {        (guarded: (res > eps || (first && force)))
 \*    [precondition rho2 != 0]; v = A P p; x += alpha p; s = r - alpha v;
 \*    if ((res = norm(s)) > eps) { t = A P s; [precondition omega != 0]; x += omega s; r = s - omega t; res = norm(r) } }
 BsInit == /\ IsS("bicgstab") /\ Act("bicgstab.residual", "Init0", "Head")
           /\ nP' = nP + LX
-          /\ IF cfg.opt THEN conv' = FALSE /\ resVer' = -1 /\ hist' = Append(hist, "k")  \* res = 2 eps: not a residual of anything
-                        ELSE resVer' = xVer /\ \E c \in BOOLEAN : NewConv(c)
+          /\ IF cfg.opt /\ ~CheckAfterGuarded
+             THEN \* res = 2 eps: not a residual of anything
+                  conv' = FALSE /\ resVer' = -1 /\ hist' = Append(hist, "k") /\ force' = FALSE
+             ELSE /\ resVer' = xVer
+                  /\ \E c \in BOOLEAN : \E nz \in (IF cfg.opt /\ c THEN BOOLEAN ELSE {TRUE}) :   \* nz: res # 0
+                        /\ conv' = c /\ force' = (cfg.opt /\ nz)
+                        /\ hist' = Append(hist, (IF c THEN "c" ELSE "n") \o (IF cfg.opt /\ c /\ nz THEN "k" ELSE ""))
           /\ Keep(<<cfg, iter, j, nrest, first, est, zero, broke, clock, xVer, effVer>>)
-BsHead == /\ IsS("bicgstab") /\ Act("bicgstab.test", "Head", IF ~conv /\ iter < cfg.maxit THEN "Half1" ELSE "Return")
-          /\ Keep(<<cfg, iter, j, nrest, first, conv, est, zero, broke, clock, xVer, effVer, resVer, nP, hist>>)
+BsHead == /\ IsS("bicgstab") /\ Act("bicgstab.test", "Head", IF (~conv \/ (first /\ force)) /\ iter < cfg.maxit THEN "Half1" ELSE "Return")
+          /\ Keep(<<cfg, iter, j, nrest, first, force, conv, est, zero, broke, clock, xVer, effVer, resVer, nP, hist>>)
 BsHalf1 == /\ IsS("bicgstab") /\ Act("bicgstab.bicg_half", "Half1", "Mid")
            /\ nP' = nP + 1 /\ StepX /\ first' = FALSE /\ \E c \in BOOLEAN : NewConv(c)
-           /\ Keep(<<cfg, iter, j, nrest, est, zero, broke, effVer>>)
+           /\ Keep(<<cfg, iter, j, nrest, force, est, zero, broke, effVer>>)
 BsZeroRho == IsS("bicgstab") /\ pc = "Half1" /\ ~first /\ Throw("bicgstab.zero_rho")
 BsMid == /\ IsS("bicgstab") /\ Act("bicgstab.test_s", "Mid", IF ~conv THEN "Half2" ELSE "Inc")
-         /\ Keep(<<cfg, iter, j, nrest, first, conv, est, zero, broke, clock, xVer, effVer, resVer, nP, hist>>)
+         /\ Keep(<<cfg, iter, j, nrest, first, force, conv, est, zero, broke, clock, xVer, effVer, resVer, nP, hist>>)
 BsHalf2 == /\ IsS("bicgstab") /\ Act("bicgstab.mr_half", "Half2", "Inc")
            /\ nP' = nP + 1 /\ StepX /\ \E c \in BOOLEAN : NewConv(c)
-           /\ Keep(<<cfg, iter, j, nrest, first, est, zero, broke, effVer>>)
+           /\ Keep(<<cfg, iter, j, nrest, first, force, est, zero, broke, effVer>>)
 BsZeroOmega == IsS("bicgstab") /\ pc = "Half2" /\ Throw("bicgstab.zero_omega")
 BsInc == /\ IsS("bicgstab") /\ Act("bicgstab.inc", "Inc", "Head") /\ iter' = iter + 1
-         /\ Keep(<<cfg, j, nrest, first, conv, est, zero, broke, clock, xVer, effVer, resVer, nP, hist>>)
+         /\ Keep(<<cfg, j, nrest, first, force, conv, est, zero, broke, clock, xVer, effVer, resVer, nP, hist>>)
 
 \* -------------------------------------------------------------- BiCGStab(L)
 \* B = [P](rhs - A x); zeta = norm(B); X = 0;
@@ -123,10 +131,10 @@ BsInc == /\ IsS("bicgstab") /\ Act("bicgstab.inc", "Inc", "Head") /\ iter' = ite
 \* done: x += [P] X
 BlInit == /\ IsS("bicgstabl") /\ Act("bicgstabl.residual", "Init0", "Head")
           /\ nP' = nP + LX /\ resVer' = xVer /\ effVer' = xVer /\ \E c \in BOOLEAN : NewConv(c)
-          /\ Keep(<<cfg, iter, j, nrest, first, est, zero, broke, clock, xVer>>)
+          /\ Keep(<<cfg, iter, j, nrest, first, force, est, zero, broke, clock, xVer>>)
 BlHead == /\ IsS("bicgstabl") /\ Act("bicgstabl.test", "Head", IF iter < cfg.maxit /\ ~conv THEN "BiCG" ELSE "Done")
           /\ j' = 0
-          /\ Keep(<<cfg, iter, nrest, first, conv, est, zero, broke, clock, xVer, effVer, resVer, nP, hist>>)
+          /\ Keep(<<cfg, iter, nrest, first, force, conv, est, zero, broke, clock, xVer, effVer, resVer, nP, hist>>)
 BlBiCG == /\ IsS("bicgstabl") /\ pc = "BiCG" /\ lastAct' = "bicgstabl.bicg_step"
           /\ nP' = nP + 2
           /\ clock' = clock + 1 /\ effVer' = clock + 1 /\ resVer' = clock + 1      \* X += alpha U0; R[0] -= alpha U1
@@ -134,7 +142,7 @@ BlBiCG == /\ IsS("bicgstabl") /\ pc = "BiCG" /\ lastAct' = "bicgstabl.bicg_step"
                 /\ NewConv(c)
                 /\ IF c THEN iter' = iter + j + 1 /\ pc' = "Done" /\ j' = j
                         ELSE iter' = iter /\ j' = j + 1 /\ pc' = (IF j + 1 = Par THEN "Poly" ELSE "BiCG")
-          /\ Keep(<<cfg, nrest, first, est, zero, broke, xVer>>)
+          /\ Keep(<<cfg, nrest, first, force, est, zero, broke, xVer>>)
 BlBreak == IsS("bicgstabl") /\ pc \in {"BiCG", "Poly"} /\ Throw("bicgstabl.breakdown")
 BlPoly == /\ IsS("bicgstabl") /\ Act("bicgstabl.poly", "Poly", "Head")
           /\ clock' = clock + 1 /\ effVer' = clock + 1 /\ resVer' = clock + 1
@@ -143,10 +151,10 @@ BlPoly == /\ IsS("bicgstabl") /\ Act("bicgstabl.poly", "Poly", "Head")
                 /\ conv' = c /\ hist' = Append(hist, (IF c THEN "c" ELSE "n") \o b)
                 /\ nP' = nP + (IF b = "" THEN 0 ELSE 1)           \* R[0] = B - A P X: refreshed, same version
                 /\ xVer' = (IF b = "u" THEN clock + 1 ELSE xVer)   \* x += [P] X; X = 0
-          /\ Keep(<<cfg, j, nrest, first, est, zero, broke>>)
+          /\ Keep(<<cfg, j, nrest, first, force, est, zero, broke>>)
 BlDone == /\ IsS("bicgstabl") /\ Act("bicgstabl.done", "Done", "Return")
           /\ nP' = nP + (IF Left THEN 0 ELSE 1) /\ xVer' = effVer
-          /\ Keep(<<cfg, iter, j, nrest, first, conv, est, zero, broke, clock, effVer, resVer, hist>>)
+          /\ Keep(<<cfg, iter, j, nrest, first, force, conv, est, zero, broke, clock, effVer, resVer, hist>>)
 
 \* --------------------------------------------------- GMRES, LGMRES, FGMRES
 \* while(true) { r = [P](rhs - A x); norm_r = norm(r); if (norm_r < eps || iter >= maxiter) break;
@@ -158,21 +166,21 @@ GmSolver == cfg.solver \in {"gmres", "fgmres", "lgmres"}
 GmOuter == /\ GmSolver /\ Act("gmres.residual", "Outer", "OuterTest")
            /\ nP' = nP + LX /\ resVer' = xVer
            /\ \E c \in (IF Consistent /\ nrest > 0 THEN {est} ELSE BOOLEAN) : NewConv(c)
-           /\ Keep(<<cfg, iter, j, nrest, first, est, zero, broke, clock, xVer, effVer>>)
+           /\ Keep(<<cfg, iter, j, nrest, first, force, est, zero, broke, clock, xVer, effVer>>)
 GmOuterTest == /\ GmSolver /\ Act("gmres.test", "OuterTest", IF conv \/ iter >= cfg.maxit THEN "Return" ELSE "Inner")
                /\ j' = 0
-               /\ Keep(<<cfg, iter, nrest, first, conv, est, zero, broke, clock, xVer, effVer, resVer, nP, hist>>)
+               /\ Keep(<<cfg, iter, nrest, first, force, conv, est, zero, broke, clock, xVer, effVer, resVer, nP, hist>>)
 GmInner == /\ GmSolver /\ pc = "Inner" /\ lastAct' = "gmres.arnoldi_step"
            /\ nP' = nP + 1 /\ j' = j + 1 /\ iter' = iter + 1
            /\ \E e \in BOOLEAN :
                 /\ est' = e /\ hist' = Append(hist, IF e THEN "e" ELSE "f")
                 /\ pc' = (IF iter + 1 >= cfg.maxit \/ j + 1 >= Par \/ e THEN "Update" ELSE "Inner")
-           /\ Keep(<<cfg, nrest, first, conv, zero, broke, clock, xVer, effVer, resVer>>)
+           /\ Keep(<<cfg, nrest, first, force, conv, zero, broke, clock, xVer, effVer, resVer>>)
 GmUpdate == /\ GmSolver /\ Act("gmres.update_x", "Update", "Outer")
             /\ nP' = nP + (IF IsS("fgmres") \/ Left THEN 0 ELSE 1)
             /\ clock' = clock + 1 /\ xVer' = clock + 1          \* the carried norm_r is now stale ...
             /\ nrest' = nrest + 1                                \* ... and is recomputed at "Outer"
-            /\ Keep(<<cfg, iter, j, first, conv, est, zero, broke, effVer, resVer, hist>>)
+            /\ Keep(<<cfg, iter, j, first, force, conv, est, zero, broke, effVer, resVer, hist>>)
 
 \* ------------------------------------------------------------------- IDR(s)
 \* r = rhs - A x; res_norm = norm(r); if (res_norm <= eps) return (0, ..);
@@ -188,10 +196,10 @@ GmUpdate == /\ GmSolver /\ Act("gmres.update_x", "Update", "Outer")
 IdInit == /\ IsS("idrs") /\ pc = "Init0" /\ lastAct' = "idrs.residual"
           /\ resVer' = xVer /\ effVer' = xVer
           /\ \E c \in BOOLEAN : NewConv(c) /\ pc' = (IF c THEN "Return" ELSE "While")
-          /\ Keep(<<cfg, iter, j, nrest, first, est, zero, broke, clock, xVer, nP>>)
+          /\ Keep(<<cfg, iter, j, nrest, first, force, est, zero, broke, clock, xVer, nP>>)
 IdWhile == /\ IsS("idrs") /\ Act("idrs.test", "While", IF iter < cfg.maxit /\ ~conv THEN "KStep" ELSE "Finish")
            /\ j' = 0
-           /\ Keep(<<cfg, iter, nrest, first, conv, est, zero, broke, clock, xVer, effVer, resVer, nP, hist>>)
+           /\ Keep(<<cfg, iter, nrest, first, force, conv, est, zero, broke, clock, xVer, effVer, resVer, nP, hist>>)
 \* x and r move together; with smoothing (x_s, r_s) move together and res_norm = norm(r_s)
 IdVectors == IF cfg.opt THEN /\ clock' = clock + 2 /\ xVer' = clock + 1
                              /\ effVer' = clock + 2 /\ resVer' = clock + 2
@@ -205,16 +213,16 @@ IdKStep == /\ IsS("idrs") /\ pc = "KStep" /\ lastAct' = "idrs.k_step"
                         /\ IF iter + 1 >= cfg.maxit THEN j' = j /\ pc' = "AfterK"
                            ELSE IF j + 1 < Par THEN j' = j + 1 /\ pc' = "KStep"
                            ELSE j' = j /\ pc' = "AfterK"
-           /\ Keep(<<cfg, nrest, first, est, zero, broke>>)
+           /\ Keep(<<cfg, nrest, first, force, est, zero, broke>>)
 IdBreak == IsS("idrs") /\ pc \in {"KStep", "Omega"} /\ Throw("idrs.breakdown")
 IdAfterK == /\ IsS("idrs") /\ Act("idrs.test_after_block", "AfterK", IF conv \/ iter >= cfg.maxit THEN "Finish" ELSE "Omega")
-            /\ Keep(<<cfg, iter, j, nrest, first, conv, est, zero, broke, clock, xVer, effVer, resVer, nP, hist>>)
+            /\ Keep(<<cfg, iter, j, nrest, first, force, conv, est, zero, broke, clock, xVer, effVer, resVer, nP, hist>>)
 IdOmega == /\ IsS("idrs") /\ Act("idrs.omega_step", "Omega", "While")
            /\ nP' = nP + 1 /\ IdVectors /\ iter' = iter + 1 /\ \E c \in BOOLEAN : NewConv(c)
-           /\ Keep(<<cfg, j, nrest, first, est, zero, broke>>)
+           /\ Keep(<<cfg, j, nrest, first, force, est, zero, broke>>)
 IdFinish == /\ IsS("idrs") /\ Act("idrs.finish", "Finish", "Return")
             /\ xVer' = (IF cfg.opt THEN effVer ELSE xVer)            \* copy(x_s, x)
-            /\ Keep(<<cfg, iter, j, nrest, first, conv, est, zero, broke, clock, effVer, resVer, nP, hist>>)
+            /\ Keep(<<cfg, iter, j, nrest, first, force, conv, est, zero, broke, clock, effVer, resVer, nP, hist>>)
 
 Next == \/ ZeroRhs \/ NonZeroRhs
         \/ LinInit \/ LinHead \/ LinBody
@@ -235,9 +243,9 @@ Budget == AtReturn => BudgetOK(cfg.solver, Par, iter, cfg.maxit)
 \* Return only after a passed test, an exhausted budget, the zero-rhs shortcut or a breakdown
 ExitReason == AtReturn => broke \/ ExitOK(zero, conv, iter, cfg.maxit)
 \* the reported residual belongs to the x that is handed back
-\* (bicgstab with check_after and maxiter = 0 reports the constant 2 eps: see CheckAfter0)
-Provenance == AtReturn /\ ~broke /\ ~(IsS("bicgstab") /\ cfg.opt /\ cfg.maxit = 0) => resVer = xVer
-CheckAfter0 == AtReturn /\ IsS("bicgstab") /\ cfg.opt /\ cfg.maxit = 0 /\ ~zero => resVer = -1
+\* (violated by bicgstab with check_after and maxiter = 0 when CheckAfterGuarded = FALSE:
+\*  the pinned tree returns the constant 2 eps / ||rhs||; KrylovCtlPinned.cfg shows the trace)
+Provenance == AtReturn /\ ~broke => resVer = xVer
 \* the counted iterations account for the work that was done
 Work == AtReturn /\ ~broke /\ ~zero => WorkOK(cfg.solver, cfg.side, Par, IsS("bicgstabl") /\ cfg.opt, iter, nP, conv)
 \* nothing pending: the effective solution has been written to x
